@@ -40,6 +40,20 @@ class Prop(BaseProp):
                 b = rng.choice([2.0, 10.0, 0.5, 7.25, 1.5])
                 aux = [genvals.enc_leaf(b, ty.leaf().width)]
             out.append(Case('c%d' % len(out), ty, fn, [a], aux, tag='dom'))
+        # two-argument arctangent: general position, both axes (both signs) and points next to them; the origin is the only singularity
+        t64 = [t for t in tys if t.leaf().width == 64]
+        axis = [(1.5, 0.0), (-2.0, 0.0), (0.0, 0.75), (0.0, -1.25), (-1.0, 1e-9), (3.0, -1e-12), (1e-7, -2.0), (-1e-10, 0.5)]
+        for j in range(max(24, n // 12)):
+            ty = t64[j % len(t64)] if j % 5 else tys[j % len(tys)]
+            if j % 3 == 0:
+                yv, xv = axis[(j // 3) % len(axis)]
+            else:
+                yv, xv = rng.uniform(-5, 5), rng.uniform(-5, 5)
+                if max(abs(yv), abs(xv)) < 0.1:
+                    xv = 1.0
+            a = genvals.gen_value(rng, ty, genvals.leaf_rand, re_leaf=lambda r, v=yv: v)
+            b = genvals.gen_value(rng, ty, genvals.leaf_rand, re_leaf=lambda r, v=xv: v)
+            out.append(Case('A%d' % len(out), ty, 'atan2', [a, b], [], tag='atan2'))
         # tanh far out (the true derivative parts underflow): flat types return zeros, nested types are the open finding tanh-nested-intermediate-overflow
         for j, ty in enumerate(tys):
             if ty.leaf().width == 64 and (ty.depth() > 1 or j % 3 == 0):
@@ -53,6 +67,8 @@ class Prop(BaseProp):
             return Violation('counterexample', '%s on %s panics' % (case.op, case.ty), case=case, obtained='panic')
         w = case.ty.leaf().width
         conv = lambda b: pyjet.mpf_of_bits(b, w)
+        if case.op == 'atan2':
+            return self.oracle_atan2(case, impl, w, conv)
         J = pyjet.jet_of_value(case.args[0], case.ty, conv)
         fn = case.op
         results = [impl]
@@ -83,6 +99,27 @@ class Prop(BaseProp):
                     return Violation('counterexample', '%s on %s at x=%s: part %s = %s, Faa di Bruno of the true derivatives gives %s (|error| = %s u Sum|terms|)' % (
                         fn, case.ty, mpmath.nstr(J.re, 8), S, mpmath.nstr(got, 17), mpmath.nstr(want, 17), mpmath.nstr(abs(got - want) / (U[w] * scale[S]), 4)),
                         case=case, expected=mpmath.nstr(want, 25), obtained=mpmath.nstr(got, 25), detail={'block': str(S), 'tolerance': mpmath.nstr(tol, 6)})
+        return None
+
+    def oracle_atan2(self, case, impl, w, conv):
+        """atan2(y, x): Ratan2 in the real part, Faa di Bruno of atan along the quotient in the derivative parts (reference and scale shared with C10)"""
+        from props import c10
+        ref, scale = c10.Prop.reference(None, case, conv)
+        y0, x0 = genvals.real_part(case.args[0], case.ty), genvals.real_part(case.args[1], case.ty)
+        for S in ref.fam:
+            b = pyjet.part_bits(impl, case.ty, S)
+            want = ref[S]
+            if b == vlib.NAN:
+                return Violation('counterexample', 'atan2 on %s at (y, x) = (%r, %r): part %s is NaN, true value %s' % (case.ty, y0, x0, S, mpmath.nstr(want, 12)),
+                                 case=case, expected=mpmath.nstr(want, 20), obtained='NaN')
+            got = conv(b)
+            if S == () and y0 == 0 and x0 < 0:
+                got, want = abs(got), abs(want)      # on the branch cut the sign of pi follows the sign of the zero
+            tol = 1024 * U[w] * scale[S] + mpf(10) ** -300
+            if abs(got - want) > tol:
+                return Violation('counterexample', 'atan2 on %s at (y, x) = (%r, %r): part %s = %s, true value %s' % (
+                    case.ty, y0, x0, S, mpmath.nstr(got, 17), mpmath.nstr(want, 17)), case=case, expected=mpmath.nstr(want, 25), obtained=mpmath.nstr(got, 25),
+                    detail={'block': str(S), 'tolerance': mpmath.nstr(tol, 6)})
         return None
 
     def nontrivial(self, case, impl):
